@@ -27,9 +27,17 @@ class Model:
                     caps[prim[1]] = prim[2]
         self.capE, self.capD = caps.get("E", QL), caps.get("D", QL)
         self.QMAX = max(self.capE, self.capD, 1)
-        self.NJ = KMAX            # job slots: one job per successfully filled set
+        self.kinds = getattr(job, "kinds", [job])
+        # job slots: one job per successfully filled set, plus one for every further kind of job
+        self.NJ = KMAX + (len(self.kinds) - 1)
         self.NT = QL + 3          # token ids (the code should create QL+1)
-        self.auts = [("main", main, None), ("reader", reader, None)] + [("job", job, j) for j in range(self.NJ)]
+        # one automaton instance per (slot, kind); an instance only moves if its slot holds a job of its kind
+        self.auts = [("main", main, None), ("reader", reader, None)]
+        self.slot_tids = {}
+        for j in range(self.NJ):
+            for k, A in enumerate(self.kinds):
+                self.slot_tids[(j, k)] = len(self.auts)
+                self.auts.append(("job", A, (j, k)))
         # global edge list
         self.edges = []           # (tid, src, label, dst)
         for tid, (role, A, j) in enumerate(self.auts):
@@ -62,6 +70,7 @@ class Model:
             S["pc%d" % tid] = z3.BitVec("pc%d@%d" % (tid, t), WPC)
         for j in range(self.NJ):
             S["jst%d" % j] = I("jst%d" % j)
+            S["jkind%d" % j] = I("jkind%d" % j)
         S["qE_len"] = I("qE_len")
         S["qD_len"] = I("qD_len")
         for i in range(self.QMAX):
@@ -88,6 +97,7 @@ class Model:
             c.append(S["pc%d" % tid] == A.init)
         for j in range(self.NJ):
             c.append(S["jst%d" % j] == 0)
+            c.append(S["jkind%d" % j] == 0)
         for n in ("qE_len", "qD_len", "sD", "rD", "sE", "rE", "created", "ndi", "nfill", "njobs", "ndeliv", "nerrdeliv", "spawned", "rres"):
             c.append(S[n] == 0)
         c.append(S["CUR"] == -1)
@@ -138,7 +148,9 @@ class Model:
         if role == "reader":
             g.append(S0["spawned"] == 1)
         if role == "job":
+            jslot, jk = jslot
             js = S0["jst%d" % jslot]
+            g.append(S0["jkind%d" % jslot] == jk)
             if src == A.init:
                 earlier = [S0["jst%d" % i] != 1 for i in range(jslot)]
                 g += [js == 1, self.running(S0) < self.NTHR] + earlier
@@ -198,7 +210,7 @@ class Model:
             if role == "reader":
                 u["rres"] = IV(1 if lab[1].startswith("Err") else 0)
             if role == "job":
-                u["jst%d" % jslot] = IV(3)
+                u["jst%d" % jslot[0]] = IV(3)
         elif a == "panic":
             u["panic"] = z3.BoolVal(True)
         elif a == "clone":
@@ -267,11 +279,14 @@ class Model:
                 g += [z3.Not(S["fdone"]), S["nfill"] == self.K, self.ENDERR]
                 u["fdone"] = z3.BoolVal(True)
         elif a == "execute":
+            kind, reg = lab[1], lab[2]
             g.append(S["njobs"] < self.NJ)
             for j in range(self.NJ):
                 u["jst%d" % j] = z3.If(S["njobs"] == j, IV(1), S["jst%d" % j])
-                jt = len([1 for x in self.auts[:2]]) + j
-                u["R%d:job.tok" % jt] = z3.If(S["njobs"] == j, R(lab[1]), S["R%d:job.tok" % jt])
+                u["jkind%d" % j] = z3.If(S["njobs"] == j, IV(kind), S["jkind%d" % j])
+                if reg is not None:
+                    jt = self.slot_tids[(j, kind)]
+                    u["R%d:job.tok" % jt] = z3.If(S["njobs"] == j, R(reg), S["R%d:job.tok" % jt])
             u["njobs"] = S["njobs"] + 1
         elif a == "work":
             tok = R(lab[1])
